@@ -89,14 +89,32 @@ impl SymbolNames for BasicGarnishData<(), NoOpCompanion> {
     }
 }
 
+/// literals of every kind followed by a blank line: a program `PRELUDE <literal>` evaluates to the literal
+const PRELUDE: &str = "\"ab\" 'c' 017_G :s 1.5 \"\"\"q\"\"\"\n\n";
+
 fn pipeline<D>(data: &mut D, kind: &str, src: &str) -> String
 where
     D: GarnishData<Number = SimpleNumber, Char = char, Byte = u8, Size = usize, Symbol = u64> + SymbolNames,
 {
-    let tokens = match lex(src) {
+    pipeline_after(data, kind, src, "")
+}
+
+fn pipeline_after<D>(data: &mut D, kind: &str, src: &str, prefix: &str) -> String
+where
+    D: GarnishData<Number = SimpleNumber, Char = char, Byte = u8, Size = usize, Symbol = u64> + SymbolNames,
+{
+    let prefix_len = if prefix.is_empty() { 0 } else { lex(prefix).map(|t| t.len()).unwrap_or(0) };
+    let full = format!("{}{}", prefix, src);
+    let src_full = full.as_str();
+    let all_tokens = match lex(src_full) {
         Ok(t) => t,
         Err(_) => return "LexErr".to_string(),
     };
+    if all_tokens.len() < prefix_len {
+        return format!("NotLit({},prefix)", all_tokens.len());
+    }
+    let program_tokens = all_tokens.clone();
+    let tokens: Vec<_> = all_tokens[prefix_len..].to_vec();
     let want = match kind {
         "N" => TokenType::Number,
         "C" => TokenType::CharList,
@@ -107,7 +125,7 @@ where
         let t = tokens.get(0).map(|t| format!("{:?}", t.get_token_type())).unwrap_or("none".to_string());
         return format!("NotLit({},{})", tokens.len(), t);
     }
-    let parsed = match parse(&tokens) {
+    let parsed = match parse(&program_tokens) {
         Ok(p) => p,
         Err(_) => return "ParseErr".to_string(),
     };
@@ -260,7 +278,19 @@ fn run_case(line: &str) -> String {
     })
     .unwrap_or_else(|_| "PANIC".to_string());
     let o = catch(|| oracle(kind, &text)).unwrap_or_else(|_| "-".to_string());
-    format!("{}\tD={};S={};B={}\t{}", line, d, s, b, o)
+    // the same literal after other literals: must denote the same value
+    let ps = catch(|| {
+        let mut data = SimpleGarnishData::new();
+        pipeline_after(&mut data, kind, &src, PRELUDE)
+    })
+    .unwrap_or_else(|_| "PANIC".to_string());
+    let pb = catch(|| match BasicGarnishData::<(), NoOpCompanion>::new(NoOpCompanion::new()) {
+        Ok(mut data) => pipeline_after(&mut data, kind, &src, PRELUDE),
+        Err(_) => "RunErr".to_string(),
+    })
+    .unwrap_or_else(|_| "PANIC".to_string());
+    let same = |x: &String, y: &String| if x == y { "same".to_string() } else { x.clone() };
+    format!("{}\tD={};S={};B={}\t{}\tPS={};PB={}", line, d, s, b, o, same(&ps, &s), same(&pb, &b))
 }
 
 fn spell(line: &str) -> String {
